@@ -13,10 +13,19 @@
 (* nocreate = the next 12 open_new calls after that index fail (retries    *)
 (* are exhausted).  at = 0: no fault.  stall = 0: no stall.  wfail: which   *)
 (* events' writers fail (FormatFail in FileEmitterTrace.tla).              *)
+(* tpl: the form of the file-set template: full = dir/prefix.ext; noext =  *)
+(* dir/prefix (the extension is the default one); nodir = prefix.ext (the  *)
+(* directory is the empty path); invalid = no file name: the REAL builder  *)
+(* then returns an inert emitter (it accepts nothing, touches nothing and  *)
+(* makes no filesystem call: faults and stalls do not apply to it).        *)
+(* sep: the configured separator ("nl" one byte, "crlf" two); the printed   *)
+(* scenario carries, for every way a writer may end its output, that       *)
+(* output and the complete bytes emit queues (spec/FileFraming.tla); the   *)
+(* harness gives the events' writers these endings in turn.                *)
 (***************************************************************************)
-EXTENDS Naturals, TLC, Json
+EXTENDS Naturals, TLC, Json, FileFraming
 
-CONSTANTS Caps, MaxFilesSet, MaxSizeSet, ReuseSet, FaultKinds, FaultAt, Stalls, WriterFails
+CONSTANTS Caps, MaxFilesSet, MaxSizeSet, ReuseSet, FaultKinds, FaultAt, Stalls, WriterFails, Templates, Seps
 
 VARIABLE s
 
@@ -29,12 +38,16 @@ WFails == {[every |-> w[1], kind |-> w[2]] : w \in WriterFails}
 \* (tuples cannot be written in a .cfg)
 QuickWriterFails == {<<0, "none">>, <<2, "partial">>, <<3, "partial">>, <<3, "empty">>}
 
-Scenarios == [cap : Caps, maxFiles : MaxFilesSet, maxSize : MaxSizeSet, reuse : ReuseSet,
-              fault : Faults, stall : Stalls, wfail : WFails]
+Scenarios == {x \in [cap : Caps, maxFiles : MaxFilesSet, maxSize : MaxSizeSet, reuse : ReuseSet,
+                      fault : Faults, stall : Stalls, wfail : WFails, tpl : Templates, sep : Seps] :
+                 x.tpl = "invalid" => (x.fault.kind = "none" /\ x.stall = 0)}
 
 Init == s \in Scenarios
 Next == UNCHANGED s
 Spec == Init /\ [][Next]_s
 
-Printed == PrintT(<<"SCEN", ToJson(s)>>)
+Framing(f) == [we \in EndsFor(f, AllWriterEnds) |-> [out |-> WriterOut(f, we), rec |-> Queued(f, we)]]
+Framed == \A f \in Seps : \A we \in EndsFor(f, AllWriterEnds) : FramedOk(f, we)
+
+Printed == PrintT(<<"SCEN", ToJson([env |-> s, sepBytes |-> SepOf(s.sep), framing |-> Framing(s.sep)])>>)
 =============================================================================
